@@ -1,14 +1,14 @@
 (* C06 -- every valid DSDL input yields generated code that builds cleanly on its own: the part that is logic.
    Statements only; proofs in Gen/ClosureThm.v (general) and Gen/ClosureInstThm.v (regenerated configuration).
    "Compiles without diagnostics" itself has no Coq model here (PARTIAL, see tools/checks/c06.py MANIFEST). *)
-From Verif Require Import Closure ClosureThm ClosureInst ClosureInstThm StropThmInst.
+From Verif Require Import Closure ClosureThm ClosureInst ClosureInstThm StropThmInst IsoHeaders.
 Open Scope N_scope.
 
 (* includes_closed: for ALL type sets closed under dependencies, every #include of a type header is an output of generating
    the set, a support output (unless omitted) or a header get_includes adds -- for any language configuration whose include
    side and output side use the same id types (= call the same path function) *)
 Theorem C06_includes_closed : forall (l : lang_cfg) q omit ts t i,
-  lc_inc_short_idt l = lc_out_short_idt l -> lc_inc_ns_idt l = lc_out_ns_idt l ->
+  lc_inc_short_idt l = lc_out_short_idt l -> lc_inc_ns_idt l = lc_out_ns_idt l -> lc_ext l = lc_out_ext l ->
   closed q ts = true -> In t ts -> In i (include_list l q omit t) ->
   In i (map (punct l) (outputs l ts)) \/ (omit = false /\ In i (map (punct l) (support_outputs l))) \/ In i (lc_std l (direct q t))
   \/ In i (lc_tmpl_inc l omit).
@@ -59,7 +59,7 @@ Proof. exact py_import_names_are_dirs. Qed.
 Print Assumptions C06_py_import_names_are_dirs.
 
 Theorem C06_py_type_file_in_package_dir : forall t,
-  exists f, make_path (lc_sid py_cfg) (lc_stropping py_cfg) (lc_out_short_idt py_cfg) (lc_out_ns_idt py_cfg) (lc_ext py_cfg) t
+  exists f, make_path (lc_sid py_cfg) (lc_stropping py_cfg) (lc_out_short_idt py_cfg) (lc_out_ns_idt py_cfg) (lc_out_ext py_cfg) t
             = ns_dir (lc_sid py_cfg) (lc_dir_idt py_cfg) (ti_ns t) ++ [f].
 Proof. exact py_type_file_in_package_dir. Qed.
 Print Assumptions C06_py_type_file_in_package_dir.
@@ -93,6 +93,49 @@ Theorem C06_namespace_braces_balanced : forall ns,
 Proof. exact namespace_braces_balanced. Qed.
 Print Assumptions C06_namespace_braces_balanced.
 
+(* STRICT closure: every #include of a generated C type header is a file generating the set produces, or a header of the COMMITTED
+   ISO C11 table (Gen/IsoHeaders.v, not regenerated); for C++: ... or of the committed ISO C++ table, or -- only under the
+   --language-standard that selects it (std_flavor = cetl) -- one of the two CETL headers.  Anything else get_includes, the option presets
+   or base.j2 add breaks these theorems. *)
+Theorem C06_includes_strict_c : forall q omit ts t i,
+  closed q ts = true -> In t ts -> In i (include_list c_cfg q omit t) ->
+  In i (map (punct c_cfg) (outputs c_cfg ts)) \/ (omit = false /\ In i (map (punct c_cfg) (support_outputs c_cfg))) \/ is_iso_c i = true.
+Proof. exact includes_strict_c. Qed.
+Print Assumptions C06_includes_strict_c.
+
+Theorem C06_includes_strict_cpp : forall std hv q omit ts t i,
+  closed q ts = true -> In t ts -> In i (include_list (cpp_cfg std hv) q omit t) ->
+  In i (map (punct (cpp_cfg std hv)) (outputs (cpp_cfg std hv) ts))
+  \/ (omit = false /\ In i (map (punct (cpp_cfg std hv)) (support_outputs (cpp_cfg std hv))))
+  \/ is_iso_cpp i = true
+  \/ In i (third_party_allowed std).
+Proof. exact includes_strict_cpp. Qed.
+Print Assumptions C06_includes_strict_cpp.
+
+Theorem C06_third_party_only_cetl : forall std, std <> s_cetl_std -> third_party_allowed std = [].
+Proof. exact third_party_only_cetl. Qed.
+Print Assumptions C06_third_party_only_cetl.
+
+(* both sides take the file extension from the same configuration key (two distinct model fields, scanned sources) *)
+Theorem C06_extension_sources_agree :
+  lc_ext c_cfg = c_ext /\ lc_out_ext c_cfg = c_ext /\ (forall std hv, lc_ext (cpp_cfg std hv) = cpp_ext /\ lc_out_ext (cpp_cfg std hv) = cpp_ext)
+  /\ lc_ext py_cfg = py_ext /\ lc_out_ext py_cfg = py_ext.
+Proof. exact extension_sources_agree. Qed.
+Print Assumptions C06_extension_sources_agree.
+
+(* cpp base.j2 applies open_namespace and close_namespace once each, to the same expression, open before close (what makes
+   C06_namespace_braces_balanced a statement about the template and not only about the two filters) *)
+Theorem C06_namespace_sites : cpp_open_ns_args = [s_full_ns] /\ cpp_close_ns_args = [s_full_ns] /\ cpp_open_before_close = true.
+Proof. exact namespace_sites. Qed.
+Print Assumptions C06_namespace_sites.
+
+(* guards: equal guards force equal macro-cased names and equal VERSIONS (dec_str is injective) *)
+Theorem C06_guard_injective_full : forall sid st tail t1 t2,
+  guard sid st tail t1 = guard sid st tail t2 ->
+  macrofy sid st (full_name t1) = macrofy sid st (full_name t2) /\ ti_major t1 = ti_major t2 /\ ti_minor t1 = ti_minor t2.
+Proof. exact guard_injective_full. Qed.
+Print Assumptions C06_guard_injective_full.
+
 (* generation completes (stropping part): on every non-empty token and every legal id type the stropper returns a token -- the
    model's sid_of never takes its dead arm; C09's totality theorem, imported.  All id types the sites pass are legal. *)
 Theorem C06_stropping_total : forall l (ty s : str), s <> [] -> str_eqb (lower ty) ty_all = false -> strop_lang l ty s = Ok (sid_of l ty s).
@@ -120,7 +163,7 @@ Theorem C06_py_init_imports_closed : forall ts d,
   In d ts -> forallb valid_ident (ti_ns (td_id d)) = true -> valid_ident (versioned (td_id d)) = true ->
   str_eqb (stem (short_ref (lc_sid py_cfg) (lc_stropping py_cfg) (lc_default_idt py_cfg) (td_id d)))
           (short_ref (lc_sid py_cfg) (lc_stropping py_cfg) (lc_default_idt py_cfg) (td_id d)) = true ->
-  In (posix (removelast (init_import_module py_cfg (td_id d)) ++ [last (init_import_module py_cfg (td_id d)) [] ++ lc_ext py_cfg]))
+  In (posix (removelast (init_import_module py_cfg (td_id d)) ++ [last (init_import_module py_cfg (td_id d)) [] ++ lc_out_ext py_cfg]))
      (outputs py_cfg ts).
 Proof. exact py_init_imports_closed. Qed.
 Print Assumptions C06_py_init_imports_closed.
